@@ -1049,18 +1049,22 @@ func runBuildCase(rep *Report, in FileInput, cf *CaseFile, fail func(prop, sig, 
 	}
 	if cf != nil {
 		lens := chunkLens(content, in.Chunker)
-		// the reference's other layout (trickle, raw leaves) over the same chunks: compared with File/Trickle.v, whose DAGs are
-		// proved well-sized for every width and chunk list
-		tr := "None"
+		// the reference's other layouts over the same chunks: compared with File/Trickle.v, whose DAGs are proved well-sized for
+		// every width and chunk list
+		// raw-leaf trickle, protobuf-leaf trickle, protobuf-leaf balanced (the raw-leaf balanced DAG is `rdag` above)
+		refs := []string{"None", "None", "None"}
 		if len(lens) > 0 {
-			tst := NewStore()
-			troot, tsize, terr := refImport(tst, refOpts{Width: in.Width, Chunker: in.Chunker, RawLeaves: true, Trickle: true}, content)
-			if terr != nil {
-				fail("C01", "ref-trickle-error", "the reference trickle importer failed (harness / reference library)", nil, terr.Error())
-			} else {
-				tr = fmt.Sprintf("(Some (%d, %d))", dumpDAG(tst, troot, map[string]*DNode{}).FP(), tsize)
+			for ri, ro := range []refOpts{{Width: in.Width, Chunker: in.Chunker, RawLeaves: true, Trickle: true}, {Width: in.Width, Chunker: in.Chunker, Trickle: true}, {Width: in.Width, Chunker: in.Chunker}} {
+				tst := NewStore()
+				troot, tsize, terr := refImport(tst, ro, content)
+				if terr != nil {
+					fail("C01", "ref-layout-error", "the reference importer failed (harness / reference library)", nil, terr.Error())
+				} else {
+					refs[ri] = fmt.Sprintf("(Some (%d, %d))", dumpDAG(tst, troot, map[string]*DNode{}).FP(), tsize)
+				}
 			}
 		}
+		tr := strings.Join(refs, " ")
 		cf.Add(fmt.Sprintf("mk_fbuild %d %s %d (Some (%d, %d)) (Some (%d, %d)) %s", in.Width, coqNList(lens), in.Seed, dag.FP(), size, rdag.FP(), rsize, tr), in)
 	}
 }
